@@ -566,8 +566,8 @@ pub fn plans_for(prop: &str, tier: Tier) -> Vec<Plan> {
         "C07" => pick(&["A3", "A1a", "A1b", "A12"]),
         "C13" => pick(&["A2-", "A1a", "A1b", "A3", "A4", "A5a", "A5b", "A6", "A10", "A12"]),
         "C12" => pick(&["A6"]),
-        "C16" => pick(&["A1b", "A2-", "A2s", "A4", "A5b", "A6", "A7", "A10", "A12"]),
-        "C08" => pick(&["A7", "A2-", "A1b", "A10", "A12"]),
+        "C16" => pick(&["A1b", "A2-", "A2s", "A4", "A5b", "A6", "A7", "A10", "A12", "A13"]),
+        "C08" => pick(&["A7", "A2-", "A1b", "A10", "A12", "A13"]),
         "C18" => pick(&["A7", "A12"]),
         _ => all.clone(),
     };
@@ -683,8 +683,25 @@ impl Check {
             let raw = c.to_string();
             // leading position of each component (quick: below U+3000 only)
             let lead: [(&str, &str); 7] = [("pkg:t/", "x"), ("pkg:t/n@", "1"), ("pkg:t/n?k=", "v"), ("pkg:t/n#", "s"), ("pkg:t/", "g/n"), ("pkg:t/n#s/t", ""), ("pkg:t/g", "/n")];
-            let lead_on = self.tier == Tier::Thorough || (c as u32) < 0x3000;
-            for (p, s) in frames.iter().chain(lead.iter().filter(|_| lead_on)) {
+            // quick tier: the six component frames for every scalar value; the positions added later
+            // (type, key, algorithm, leading / trailing) for every scalar below U+3000, every cased
+            // supplementary-plane script, the boundaries of the UTF-8 lengths and every 257th value beyond
+            let cu = c as u32;
+            let dense = self.tier == Tier::Thorough
+                || cu < 0x3000
+                || (0xFF00..0xFFF0).contains(&cu)
+                || (0x10400..0x10500).contains(&cu)
+                || (0x10C80..0x10D00).contains(&cu)
+                || (0x118A0..0x118E0).contains(&cu)
+                || (0x16E40..0x16E80).contains(&cu)
+                || (0x1E900..0x1E950).contains(&cu)
+                || matches!(cu, 0xD7FF | 0xE000 | 0xFFFD | 0xFFFF | 0x10000 | 0x10FFFF)
+                || cu % 257 == 0;
+            let lead_on = dense;
+            for (fi, (p, s)) in frames.iter().chain(lead.iter().filter(|_| lead_on)).enumerate() {
+                if fi >= 6 && !dense {
+                    continue;
+                }
                 for (i, spelled) in [&raw, &upper, &lower].iter().enumerate() {
                     if i == 2 && lower == upper {
                         continue;
@@ -700,7 +717,9 @@ impl Check {
             }
         });
         a.samples.truncate(2);
-        self.stages.push(json!({"engine": "E-scalar-positions", "scalar_values": sweeps::N_SCALARS, "frames": frames.iter().map(|(p, s)| format!("{p}<c>{s}")).collect::<Vec<_>>(), "spellings": ["raw", "%XX", "%xx"], "ascii_only": ascii_only, "strings": a.evals, "accepted": a.accepted, "wall_s": t0.elapsed().as_secs_f64()}));
+        self.stages.push(json!({"engine": "E-scalar-positions", "scalar_values": sweeps::N_SCALARS, "frames": frames.iter().map(|(p, s)| format!("{p}<c>{s}")).collect::<Vec<_>>(), "spellings": ["raw", "%XX", "%xx"], "ascii_only": ascii_only,
+            "added_frames": "type, key and algorithm positions and the leading / trailing position of every component: every scalar value in the thorough tier; in the quick tier every scalar below U+3000, the full-width forms, every cased supplementary-plane script, the UTF-8 length boundaries and every 257th value",
+            "strings": a.evals, "accepted": a.accepted, "wall_s": t0.elapsed().as_secs_f64()}));
         self.bounds.push(json!({"scalar_position_strings": a.evals}));
         self.total.merge(a);
     }
